@@ -14,6 +14,7 @@ DATA_ENTRY = ('evaluate', 'update', 'set_variable_to_ast_from_dataset')
 
 def check(ix, rep):
     from sa.rules import round11 as _r11
+    rep.floor('pastify() wrappers checked for constructs the pastifier removes', _r11.check_pastify_keeps_rejections(ix, rep), 1)
     rep.floor('assignments of the closing sample in the online merge kernel', _r11.check_closing_sample_shape(ix, rep), 20)
     rep.floor('dense-time online operations that remember their frontier', _r11.check_seam(ix, rep), 2)
     rep.floor('guards of set_ast in the specification wrappers', _r11.check_set_ast_guards(ix, rep), 2)
